@@ -9,18 +9,22 @@ open Rscp Rscp.Model
 /-- the key is the key string padded with 0xFF to 32 bytes -/
 theorem key_padding (k : List Byte) (h : k.length ≤ 32) :
     mkKey k = k ++ List.replicate (32 - k.length) 0xFF := by
-  sorry
+  have h1 : min 32 k.length = k.length := Nat.min_eq_right h
+  show k.take (min 32 k.length) ++ List.replicate (32 - min 32 k.length) 0xFF = _
+  rw [h1, List.take_length]
 
 /-- a longer key is used by its first 32 bytes (never a crash: `mkKey` is total) -/
 theorem key_long (k : List Byte) (h : 32 < k.length) : mkKey k = k.take 32 := by
-  sorry
+  have h1 : min 32 k.length = 32 := Nat.min_eq_left (Nat.le_of_lt h)
+  show k.take (min 32 k.length) ++ List.replicate (32 - min 32 k.length) 0xFF = _
+  rw [h1, Nat.sub_self, List.replicate_zero, List.append_nil]
 
 theorem key_is_a_block (k : List Byte) : (mkKey k).length = 32 := by
-  sorry
+  exact Lemmas.Crypt.mkKey_length k
 
 /-- the initial chaining value is 32 bytes of 0xFF -/
 theorem iv_is_ff : iv0 = List.replicate 32 0xFF := by
-  sorry
+  exact Lemmas.Session.iv0_eq
 
 /-- In every history that begins with a connection — any number of frames of any size in either direction,
     any number of reconnects at any point — every frame is received as it was sent: the independent peer
@@ -29,18 +33,27 @@ theorem iv_is_ff : iv0 = List.replicate 32 0xFF := by
 theorem peer_decrypts_all (c : BlockCipher) (hc : c.OK) (cl pe : Chains) (ops : List WireOp)
     (hblocks : ∀ op ∈ ops, ∀ f, (op = .toPeer f ∨ op = .toClient f) → ∀ b ∈ f, b.length = 32) :
     ∀ d ∈ wireRun c cl pe (.connect :: ops), d.received = d.sent := by
-  sorry
+  intro d hd
+  simp only [wireRun, wireStep] at hd
+  exact Lemmas.Session.wireRun_inStep c hc ops _ _ Lemmas.Session.inStep_init hblocks d hd
 
 /-- without the initial connect the same holds from the states `NewClient` creates -/
 theorem peer_decrypts_all_from_new (c : BlockCipher) (hc : c.OK) (ops : List WireOp)
     (hblocks : ∀ op ∈ ops, ∀ f, (op = .toPeer f ∨ op = .toClient f) → ∀ b ∈ f, b.length = 32) :
     ∀ d ∈ wireRun c clientInit peerInit ops, d.received = d.sent := by
-  sorry
+  exact Lemmas.Session.wireRun_inStep c hc ops _ _ Lemmas.Session.inStep_init hblocks
 
 /-- decrypting a block-aligned ciphertext stream piece by piece (as `receive` does) gives the same plaintext as
     decrypting it at once -/
 theorem cbc_chunking (c : BlockCipher) (iv : List Byte) (a b : List (List Byte)) :
     (cbcDec c iv (a ++ b)).1 = (cbcDec c iv a).1 ++ (cbcDec c (cbcDec c iv a).2 b).1 := by
-  sorry
+  rw [Lemmas.Crypt.cbcDec_append]
 
+#print axioms key_padding
+#print axioms key_long
+#print axioms key_is_a_block
+#print axioms iv_is_ff
+#print axioms peer_decrypts_all
+#print axioms peer_decrypts_all_from_new
+#print axioms cbc_chunking
 end Rscp.Props.C06
